@@ -651,7 +651,7 @@ func reifySliceMerge(
 		ol := old.Len()
 
 		switch arrMergeCfg {
-		case cfgReplaceValue:
+		case cfgReplaceValue, cfgArrReplaceValue:
 			// do nothing
 
 		case cfgArrAppend:
@@ -670,7 +670,7 @@ func reifySliceMerge(
 	}
 	tmp := reflect.MakeSlice(tTo, l, l)
 
-	if withOld && arrMergeCfg != cfgReplaceValue {
+	if withOld && arrMergeCfg != cfgReplaceValue && arrMergeCfg != cfgArrReplaceValue {
 		// (under the replace policy nothing of the old list survives, not even
 		// the fields of its elements the new elements do not set)
 		reflect.Copy(tmp.Slice(cpyStart, tmp.Len()), old)
